@@ -153,8 +153,17 @@ struct JSONUtils {
                                     continue;
                                 }
 
-                                // Surrogate
-                                if ((length - offset) > SizeT{5}) {
+                                // Surrogate pair: only if another \u escape follows. A high surrogate on its own is
+                                // grammatical (RFC 8259, section 7); taking the next six units for its second half
+                                // swallowed quotes and commas: ["\uD800","a","] was accepted.
+                                if (!(((length - offset) > SizeT{5}) && (content[offset] == JSONotation::BSlashChar) &&
+                                      ((content[(offset + SizeT{1})] == JSONotation::U_Char) ||
+                                       (content[(offset + SizeT{1})] == JSONotation::CU_Char)))) {
+                                    Unicode::ToUTF<Char_T>(code, stream);
+                                    continue;
+                                }
+
+                                {
                                     code = (code ^ 0xD800U) << 10U;
                                     offset += SizeT{2};
 
